@@ -4,6 +4,11 @@ from pyvc.spec import *   # noqa
 
 
 def declare(spec):
+    _declare(spec)
+    declare_start(spec)
+
+
+def _declare(spec):
     spec.local_ghosts.add('loop_cbs')
     spec.ghost('loop_cbs', List(INT))        # callbacks handed to loop.add_callback: 1 = close sockets, 2 = loop.stop
     spec.add(Contract('$CtlHandle.stop', params={'self': Ref('CtlHandle')}, trusted=True,
@@ -57,3 +62,59 @@ def declare(spec):
                  ('closer-scheduled', 'length(loop_cbs) == length(old(loop_cbs)) + 1')],
         ghost_at={'add_callback': ['loop_cbs = loop_cbs + [1]']},
         modifies=['*']))
+
+
+def declare_start(spec):
+    """C19 (arbiter half): watchers are started one after the other in descending priority, warmup_delay apart."""
+    iw = spec.contracts['circus.arbiter:Arbiter.iter_watchers']
+    iw.ensure_names.append('distinct-kept')
+    iw.ensures.append("implies(distinct(self.watchers), forall(INT, INT, lambda a, b: implies(0 <= a and a < b and "
+                      "b < length(result), result[a] != result[b])))")
+    iw.ensure_names.append('sorted-by-priority')
+    iw.ensures.append(
+        "forall(INT, INT, lambda a, b: implies(0 <= a and a < b and b < length(result), "
+        "ite(reverse, result[a].priority >= result[b].priority, result[a].priority <= result[b].priority)))")
+    NEWI = "length(old(spawnlog)) <= i and i < length(spawnlog)"
+    WI = "as_ref('Watcher', sig_mode(spawnlog[i]))"
+    WJ = "as_ref('Watcher', sig_mode(spawnlog[j]))"
+    ORDER = ("forall(INT, INT, lambda i, j: implies("
+             "length(old(spawnlog)) <= i and i < j and j < length(spawnlog) and "
+             "sig_mode(spawnlog[i]) != sig_mode(spawnlog[j]), "
+             "%s.priority >= %s.priority and sig_t(spawnlog[j]) >= sig_t(spawnlog[i]) + self.warmup_delay))" % (WI, WJ))
+    ALLLIFE = ("forall(INT, lambda i: implies(0 <= i and i < length(self.watchers), not isnull(self.watchers[i]) and "
+               "wf_w(self.watchers[i]) and not self.watchers[i].on_demand and self.watchers[i].arbiter == self and "
+               "found_empty(self.watchers[i]) and is_str(self.watchers[i].cmd) and self.watchers[i].warmup_delay >= 0 and "
+               "self.watchers[i].graceful_timeout >= 0 and "
+               "(self.watchers[i]._status == 'stopped' or self.watchers[i]._status == 'active') and "
+               "implies(self.watchers[i]._status == 'stopped', len(self.watchers[i].processes) == 0)))")
+    SPKEEP = spec.consts['$SPKEEP']
+    spec.add(Contract(
+        'circus.arbiter:Arbiter._start_watchers', kind='coroutine', rely='arb', params={'watcher_iter_func': VAL},
+        defaults={'watcher_iter_func': None},
+        requires=['excl', ALLLIFE, 'is_none(watcher_iter_func)', 'dir1(self)', 'self.warmup_delay >= 0'],
+        ensures=[('priority-order-and-pacing', ORDER), SPKEEP, 'excl',
+                 "same_field('Arbiter.watchers', 'Arbiter._watchers_names')", 'clock >= old(clock)'],
+        raises={'RuntimeError': []},
+        modifies=['*'],
+        loops={0: Loop(invariant=[
+            ORDER, SPKEEP, 'excl', 'clock >= old(clock)',
+            # every spawn so far is at least warmup_delay in the past, and belongs to a watcher of no lower priority
+            # than everything still to be started
+            "forall(INT, lambda i: implies(%s, sig_t(spawnlog[i]) + self.warmup_delay <= clock))" % NEWI,
+            "forall(INT, INT, lambda i, m: implies(%s and loop_i <= m and m < loop_n, "
+            "%s.priority >= loop_seq[m].priority))" % (NEWI, WI),
+            "forall(INT, INT, lambda a, b: implies(0 <= a and a < b and b < loop_n, "
+            "loop_seq[a].priority >= loop_seq[b].priority and loop_seq[a] != loop_seq[b]))",
+            "forall(INT, lambda j: implies(0 <= j and j < loop_n, contains(self.watchers, loop_seq[j])))",
+            "same_field('Arbiter.watchers', 'Arbiter._watchers_names', 'Arbiter.warmup_delay', 'Watcher.priority')",
+            "self.warmup_delay >= 0",
+            # what is still to be started is as the precondition found it
+            "forall(INT, lambda m: implies(loop_i <= m and m < loop_n, not isnull(loop_seq[m])))",
+            "forall(INT, lambda m: implies(loop_i <= m and m < loop_n, wf_procs_pid(loop_seq[m])))",
+            "forall(INT, lambda m: implies(loop_i <= m and m < loop_n, wf_w(loop_seq[m])))",
+            "forall(INT, lambda m: implies(loop_i <= m and m < loop_n, not loop_seq[m].on_demand and loop_seq[m].arbiter == self))",
+            "forall(INT, lambda m: implies(loop_i <= m and m < loop_n, found_empty(loop_seq[m])))",
+            "forall(INT, lambda m: implies(loop_i <= m and m < loop_n, is_str(loop_seq[m].cmd) and loop_seq[m].warmup_delay >= 0 and loop_seq[m].graceful_timeout >= 0))",
+            "forall(INT, lambda m: implies(loop_i <= m and m < loop_n, (loop_seq[m]._status == 'stopped' or loop_seq[m]._status == 'active')))",
+            "forall(INT, lambda m: implies(loop_i <= m and m < loop_n, implies(loop_seq[m]._status == 'stopped', len(loop_seq[m].processes) == 0)))",
+        ], fingerprint='for:watchers')}))
